@@ -38,7 +38,7 @@ import (
 type c01cCred struct {
 	Format  string `json:"fmt"`     // ldp_vc | jwt_vc
 	Subject string `json:"subject"` // presenter | other | none | mixed | double
-	Issuer  string `json:"issuer"`  // I | F | self | noproof-S | noproof-O
+	Issuer  string `json:"issuer"`  // I | F | I-by-other | self | noproof-S | noproof-O
 }
 
 type c01cCase struct {
@@ -51,17 +51,19 @@ type c01cCase struct {
 }
 
 func c01cGen(t *rapid.T) c01cCase {
-	// a quarter of the cases is steered towards the self-attested corner (presenter = holder, proof-less credentials)
-	corner := rapid.IntRange(0, 3).Draw(t, "corner") == 0
+	// a third of the cases is steered towards the self-attested corner (presenter = holder, proof-less or self-issued
+	// credentials, mostly JSON-LD envelope, mostly tampered with after signing)
+	corner := rapid.IntRange(0, 2).Draw(t, "corner") == 0
 	c := c01cCase{
 		VPFormat: rapid.SampledFrom([]string{"ldp_vp", "jwt_vp"}).Draw(t, "vpfmt"),
 		Domain:   rapid.Bool().Draw(t, "domain"),
 	}
 	n := rapid.SampledFrom([]int{0, 1, 1, 1, 2, 2, 3}).Draw(t, "n")
 	if corner {
-		c.Presenter = rapid.SampledFrom([]string{"S", "S", "S", "O"}).Draw(t, "presenter")
-		c.Holder = rapid.SampledFrom([]string{"S", "S", "S", "O", ""}).Draw(t, "holder")
-		c.Tamper = rapid.SampledFrom([]string{"", "undefined", "forge-jwt"}).Draw(t, "tamper")
+		c.VPFormat = rapid.SampledFrom([]string{"ldp_vp", "ldp_vp", "jwt_vp"}).Draw(t, "cornerfmt")
+		c.Presenter = rapid.SampledFrom([]string{"S", "S", "S", "S", "S", "O"}).Draw(t, "presenter")
+		c.Holder = rapid.SampledFrom([]string{"S", "S", "S", "S", "O", ""}).Draw(t, "holder")
+		c.Tamper = rapid.SampledFrom([]string{"", "undefined", "undefined", "forge-jwt", "forge-jwt"}).Draw(t, "tamper")
 		if n == 0 {
 			n = 1
 		}
@@ -73,11 +75,11 @@ func c01cGen(t *rapid.T) c01cCase {
 	for i := 0; i < n; i++ {
 		cc := c01cCred{Format: rapid.SampledFrom([]string{"ldp_vc", "jwt_vc"}).Draw(t, fmt.Sprintf("c%d.fmt", i))}
 		if corner {
-			cc.Subject = rapid.SampledFrom([]string{"presenter", "presenter", "presenter", "presenter", "double", "other"}).Draw(t, fmt.Sprintf("c%d.subject", i))
-			cc.Issuer = rapid.SampledFrom([]string{"noproof-S", "noproof-S", "noproof-S", "I", "self", "noproof-O"}).Draw(t, fmt.Sprintf("c%d.issuer", i))
+			cc.Subject = rapid.SampledFrom([]string{"presenter", "presenter", "presenter", "presenter", "presenter", "presenter", "double", "other"}).Draw(t, fmt.Sprintf("c%d.subject", i))
+			cc.Issuer = rapid.SampledFrom([]string{"noproof-S", "noproof-S", "noproof-S", "self", "self", "I", "noproof-O"}).Draw(t, fmt.Sprintf("c%d.issuer", i))
 		} else {
 			cc.Subject = rapid.SampledFrom([]string{"presenter", "presenter", "presenter", "presenter", "presenter", "other", "none", "mixed", "double"}).Draw(t, fmt.Sprintf("c%d.subject", i))
-			cc.Issuer = rapid.SampledFrom([]string{"I", "I", "I", "self", "F", "noproof-S", "noproof-S", "noproof-O"}).Draw(t, fmt.Sprintf("c%d.issuer", i))
+			cc.Issuer = rapid.SampledFrom([]string{"I", "I", "I", "I", "self", "F", "I-by-other", "noproof-S", "noproof-S", "noproof-O"}).Draw(t, fmt.Sprintf("c%d.issuer", i))
 		}
 		c.Creds = append(c.Creds, cc)
 	}
@@ -159,6 +161,10 @@ func c01cRun(x *h.Ctx, c c01cCase) {
 			issuer = F
 			allOK = false
 			fail("credential-proof-invalid")
+		case "I-by-other":
+			issuer = I
+			allOK = false
+			fail("credential-proof-by-key-of-another-did")
 		case "self":
 			issuer = presenter
 			if presenter == F {
@@ -183,6 +189,10 @@ func c01cRun(x *h.Ctx, c c01cCase) {
 			}
 		}
 		spec.Issuer, spec.KID = issuer.DID.String(), issuer.keys[0].KID
+		if cc.Issuer == "I-by-other" {
+			// names I as issuer but carries a (cryptographically valid) proof by a key of another DID
+			spec.KID = other.keys[0].KID
+		}
 		spec.ID = fmt.Sprintf("%s#c-%d", issuer.DID.String(), f.seq.Add(1))
 		creds = append(creds, f.signCredential(x, spec))
 	}
